@@ -146,7 +146,11 @@ def _validate_one(module: str, cfg: str, trace_file: str, timeout: int, env: dic
         # find the line at which evaluation failed, if TLC printed a state
         lm = re.findall(r"\bl = (\d+)", out)
         where = f" (while consuming line {lm[-1]} of {trace_file})" if lm else ""
-        raise MachineryError(f"trace validation by {module} failed{where} rc={p.returncode}:\n" + out[-4000:])
+        i = out.find("Error:")
+        head = out[i:i + 1200] if i >= 0 else out[-1500:]
+        j = out.find("Error: The error occurred when TLC was evaluating")
+        raise MachineryError(f"trace validation by {module} failed{where} rc={p.returncode}:\n" + head
+                             + ("\n...\n" + out[j:j + 2500] if j >= 0 else ""))
     acc, rej, n, diam = (int(x) for x in ms.groups())
     if diam != n + 1 or acc + rej != n:
         raise MachineryError(f"trace validation by {module}: not all lines consumed ({acc}+{rej} of {n}, diameter {diam})")
